@@ -18,11 +18,13 @@ const (
 	StBadges  = "badges"
 	StNotes   = "notes"
 	StTickets = "tickets"
+	StFolders = "folders" // parent -> folders via AddFkConstraint(nullable, CascadeDelete): a cascade that re-enters its own constraint
+	StReviews = "reviews" // reviewer -> staff via AddFkConstraint(nullable, CascadeNone): the TARGET is a child store
 	StGroups  = "groups"
 	StMemos   = "memos" // topic -> groups via AddFkConstraint(not nullable, CascadeDelete): a cascade target without child stores
 )
 
-var AllStores = []string{StDepts, StPeople, StStaff, StPX, StBadges, StNotes, StTickets, StGroups, StMemos}
+var AllStores = []string{StDepts, StPeople, StStaff, StPX, StBadges, StNotes, StTickets, StGroups, StMemos, StReviews, StFolders}
 
 // ---------- entities ----------
 
@@ -85,6 +87,24 @@ type Ticket struct {
 func (e *Ticket) GetId() string         { return e.Id }
 func (e *Ticket) SetId(id string)       { e.Id = id }
 func (e *Ticket) GetEntityType() string { return StTickets }
+
+type Folder struct {
+	Id     string
+	Parent *string
+}
+
+func (e *Folder) GetId() string         { return e.Id }
+func (e *Folder) SetId(id string)       { e.Id = id }
+func (e *Folder) GetEntityType() string { return StFolders }
+
+type Review struct {
+	Id       string
+	Reviewer *string
+}
+
+func (e *Review) GetId() string         { return e.Id }
+func (e *Review) SetId(id string)       { e.Id = id }
+func (e *Review) GetEntityType() string { return StReviews }
 
 type Memo struct {
 	Id    string
@@ -189,6 +209,26 @@ func (noteStrategy) PersistEntity(e *Note, ctx *boltz.PersistContext) {
 	ctx.SetStringP("about", e.About)
 }
 
+type folderStrategy struct{}
+
+func (folderStrategy) NewEntity() *Folder { return &Folder{} }
+func (folderStrategy) FillEntity(e *Folder, b *boltz.TypedBucket) {
+	e.Parent = b.GetString("parent")
+}
+func (folderStrategy) PersistEntity(e *Folder, ctx *boltz.PersistContext) {
+	ctx.SetStringP("parent", e.Parent)
+}
+
+type reviewStrategy struct{}
+
+func (reviewStrategy) NewEntity() *Review { return &Review{} }
+func (reviewStrategy) FillEntity(e *Review, b *boltz.TypedBucket) {
+	e.Reviewer = b.GetString("reviewer")
+}
+func (reviewStrategy) PersistEntity(e *Review, ctx *boltz.PersistContext) {
+	ctx.SetStringP("reviewer", e.Reviewer)
+}
+
 type ticketStrategy struct{}
 
 func (ticketStrategy) NewEntity() *Ticket { return &Ticket{} }
@@ -240,6 +280,7 @@ type StaffStore struct {
 }
 type PXStore struct {
 	*boltz.BaseStore[*PX]
+	idxMemo boltz.ReadIndex
 }
 type BadgeStore struct {
 	*boltz.BaseStore[*Badge]
@@ -249,6 +290,12 @@ type NoteStore struct {
 }
 type TicketStore struct {
 	*boltz.BaseStore[*Ticket]
+}
+type FolderStore struct {
+	*boltz.BaseStore[*Folder]
+}
+type ReviewStore struct {
+	*boltz.BaseStore[*Review]
 }
 type MemoStore struct {
 	*boltz.BaseStore[*Memo]
@@ -269,6 +316,8 @@ type Stores struct {
 	Badges  *BadgeStore
 	Notes   *NoteStore
 	Tickets *TicketStore
+	Reviews *ReviewStore
+	Folders *FolderStore
 	Groups  *GroupStore
 	Memos   *MemoStore
 
@@ -348,6 +397,12 @@ func NewStores() *Stores {
 	s.Tickets = &TicketStore{BaseStore: boltz.NewBaseStore(boltz.StoreDefinition[*Ticket]{
 		EntityType: StTickets, EntityStrategy: ticketStrategy{}, BasePath: base, EntityNotFoundF: notFoundF(StTickets)})}
 	s.Tickets.InitImpl(s.Tickets)
+	s.Reviews = &ReviewStore{BaseStore: boltz.NewBaseStore(boltz.StoreDefinition[*Review]{
+		EntityType: StReviews, EntityStrategy: reviewStrategy{}, BasePath: base, EntityNotFoundF: notFoundF(StReviews)})}
+	s.Reviews.InitImpl(s.Reviews)
+	s.Folders = &FolderStore{BaseStore: boltz.NewBaseStore(boltz.StoreDefinition[*Folder]{
+		EntityType: StFolders, EntityStrategy: folderStrategy{}, BasePath: base, EntityNotFoundF: notFoundF(StFolders)})}
+	s.Folders.InitImpl(s.Folders)
 	s.Groups = &GroupStore{BaseStore: boltz.NewBaseStore(boltz.StoreDefinition[*Group]{
 		EntityType: StGroups, EntityStrategy: groupStrategy{}, BasePath: base, EntityNotFoundF: notFoundF(StGroups)})}
 	s.Groups.InitImpl(s.Groups)
@@ -399,7 +454,9 @@ func NewStores() *Stores {
 
 	px := s.PX
 	p.GrantSymbols(px)
-	px.AddSymbol("memo", ast.NodeTypeString)
+	// an index of its own on the store that is registered AFTER the plain child store: its entries must go when the
+	// entity is deleted through any of the three stores
+	px.idxMemo = px.AddNullableUniqueIndex(px.AddSymbol("memo", ast.NodeTypeString))
 	p.RegisterChildStoreStrategy(&pxChildStrategy{store: px})
 
 	b := s.Badges
@@ -415,6 +472,16 @@ func NewStores() *Stores {
 	t := s.Tickets
 	t.AddIdSymbol("id", ast.NodeTypeString)
 	t.AddFkConstraint(t.AddFkSymbol("assignee", p), true, boltz.CascadeNone)
+
+	// a tree: deleting a folder deletes its sub-folders, each of which runs the same constraint again
+	fo := s.Folders
+	fo.AddIdSymbol("id", ast.NodeTypeString)
+	fo.AddFkConstraint(fo.AddFkSymbol("parent", fo), true, boltz.CascadeDelete)
+
+	// the referenced store is the plain CHILD store: the restrict constraint lives among the child store's constraints
+	rv := s.Reviews
+	rv.AddIdSymbol("id", ast.NodeTypeString)
+	rv.AddFkConstraint(rv.AddFkSymbol("reviewer", st), true, boltz.CascadeNone)
 
 	g := s.Groups
 	g.AddIdSymbol("id", ast.NodeTypeString)
@@ -458,6 +525,10 @@ func (s *Stores) ByName(name string) boltz.Store {
 		return s.Notes
 	case StTickets:
 		return s.Tickets
+	case StReviews:
+		return s.Reviews
+	case StFolders:
+		return s.Folders
 	case StGroups:
 		return s.Groups
 	case StMemos:
@@ -468,7 +539,7 @@ func (s *Stores) ByName(name string) boltz.Store {
 
 // TopLevel lists the stores that own an entities bucket (used by CheckIntegrity / InitializeIndexes fan-out).
 func (s *Stores) All() []boltz.Store {
-	return []boltz.Store{s.Depts, s.People, s.Staff, s.PX, s.Badges, s.Notes, s.Tickets, s.Groups, s.Memos}
+	return []boltz.Store{s.Depts, s.People, s.Staff, s.PX, s.Badges, s.Notes, s.Tickets, s.Groups, s.Memos, s.Reviews, s.Folders}
 }
 
 type indexInitializer interface {
